@@ -7,7 +7,9 @@ import (
 	"fmt"
 	"math/rand"
 	"os"
+	"path/filepath"
 	"strings"
+	"time"
 
 	"github.com/cloudflare/pint/verifharness/hx"
 	"github.com/cloudflare/pint/verifharness/pipe"
@@ -265,10 +267,58 @@ func runC18(r *hx.Run, replay string) {
 		c18Eval(r, rp.Input, dir)
 		return
 	}
+	c18LaterInterpreted(r, dir)
 	for i := 0; i < r.N; i++ {
 		cfg := c18Config(r.Rng)
 		for k := 0; k < 3; k++ {
 			c18Eval(r, c18Case{Config: cfg, Rules: c18Rules(r.Rng), Strict: r.Rng.Intn(2) == 0}, dir)
+		}
+	}
+}
+
+// c18LaterInterpreted: numbers and durations that are only used when a run is under way. A value that would make
+// that run hang (a zero query step: the slice loop never advances) or panic (a queue that cannot be allocated, a
+// ticker with a non-positive interval) or silently fail every request (a timeout read by another parser than the one
+// that validated it) has to be refused where it is read.
+func c18LaterInterpreted(r *hx.Run, dir string) {
+	for _, c := range []struct {
+		cfg   string
+		loads bool
+	}{
+		{"rule {\n  alerts {\n    range = \"1h\"\n    step = \"1m\"\n    resolve = \"5m\"\n  }\n}\n", true},
+		{"rule {\n  alerts {\n    range = \"1h\"\n    step = \"0s\"\n    resolve = \"5m\"\n  }\n}\n", false},
+		{"rule {\n  alerts {\n    range = \"1h\"\n    step = \"0m\"\n    resolve = \"5m\"\n  }\n}\n", false},
+		{"check \"promql/series\" {\n  lookbackStep = \"1m\"\n}\n", true},
+		{"check \"promql/series\" {\n  lookbackStep = \"0s\"\n}\n", false},
+		{"prometheus \"p\" {\n  uri = \"http://127.0.0.1:9\"\n  concurrency = 64\n}\n", true},
+		{"prometheus \"p\" {\n  uri = \"http://127.0.0.1:9\"\n  concurrency = 999999999999\n}\n", false},
+		{"repository {\n  gitlab {\n    project = 1\n    timeout = \"30s\"\n  }\n}\n", true},
+		{"repository {\n  gitlab {\n    project = 1\n    timeout = \"banana\"\n  }\n}\n", false},
+	} {
+		_, err := pipe.LoadConfig(dir, c.cfg)
+		r.Case("later"+c.cfg, true)
+		r.Count(fmt.Sprintf("later-interpreted-load:%v", c.loads))
+		if (err == nil) != c.loads {
+			r.Violate(hx.Violation{Class: "value-interpreted-later-not-validated", Input: map[string]any{"config": c.cfg}, Observed: map[string]any{"loads": err == nil, "error": fmt.Sprint(err)},
+				Expected: map[string]any{"loads": c.loads}})
+		}
+	}
+	if os.Getenv("PINT_BIN") == "" {
+		return
+	}
+	_ = os.WriteFile(filepath.Join(dir, "r.yml"), []byte("groups:\n- name: g\n  rules:\n  - record: a:b\n    expr: sum(up)\n"), 0o644)
+	_ = os.Remove(filepath.Join(dir, ".pint.hcl"))
+	for _, args := range [][]string{
+		{"--offline", "--workers", "999999999999", "lint", "r.yml"},
+		{"--offline", "watch", "--listen", "127.0.0.1:0", "--interval", "0s", "glob", "r.yml"},
+		{"--offline", "watch", "--listen", "127.0.0.1:0", "--interval", "-5s", "glob", "r.yml"},
+	} {
+		res := hx.RunCmd(dir, 20*time.Second, nil, hx.PintBin(), append([]string{"--no-color", "-l", "error"}, args...)...)
+		r.Case("flags"+fmt.Sprint(args), true)
+		r.Count("later-interpreted-flags")
+		if strings.Contains(res.Stderr, "panic:") || strings.Contains(res.Stderr, "goroutine ") || res.Exit == 0 || res.Exit < 0 {
+			r.Violate(hx.Violation{Class: "flag-value-crashes-or-hangs", Input: map[string]any{"args": args}, Observed: map[string]any{"exit": res.Exit, "stderr": tail(res.Stderr, 800)},
+				Expected: "an error message and a non-zero exit status"})
 		}
 	}
 }
